@@ -555,6 +555,9 @@ def run_provider(ctx, rng, reb, oidc, nbatches, label):
             rec["ops"].append(op)
             rec["outs"].append(o[0] if isinstance(o, list) else "?")
             ctx.count("%s:%s" % (label, op[0]))
+            ctx.count("%s-out:%s" % (label, o[0] if isinstance(o, list) else "?"))
+            ctx.case_seen({"provider": label, "batch": b, "request": op, "answer": (o[:2] if o and o[0] != "ok" else ["ok"])},
+                          isinstance(o, list) and o[0] in ("ok", "err"))
             okt = okt or (o[0] == "ok" and op[0] in ("token", "token_res", "refresh", "exchange"))
             err = err or o[0] in ("err", "exc")
             g1, s1 = snapshot_globals(), snapshot_provider(server, clients)
@@ -602,6 +605,7 @@ def run_rp(ctx, rng, nbatches):
                 o = R.run(op)
             rec["ops"].append(op)
             ctx.count("rp:" + op[0])
+            ctx.case_seen({"rp_batch": b, "request": op, "answer": o[0] if isinstance(o, list) and o else "?"}, True)
             g1, s1 = snapshot_globals(), snapshot_rp(R.rp)
             if g1 != g0 or s1 != s0:
                 what = diff_paths(g0, g1) + diff_paths(s0, s1)
